@@ -117,6 +117,9 @@ func buildCases() ([]scen.Case, map[string]caseInfo) {
 				op := scen.Method{Name: "Op" + id, Verb: "POST", Route: scen.S("/op"), Security: m.Secs, Hidden: hidden}
 				sib := scen.Method{Name: "Sib" + id, Verb: "GET", Route: scen.S("/sib")}
 				ctl.Methods = []scen.Method{op, sib}
+				if n%2 == 0 {
+					ctl.Methods = []scen.Method{sib, op} // declaration order must not matter
+				}
 				cases = append(cases, scen.Case{ID: id, Unit: scen.Unit{Controllers: []scen.Controller{ctl}},
 					Features: map[string]string{"method": m.Name, "controller": c.Name, "hidden": fmt.Sprint(hidden)}, Desc: ctl})
 				info[id] = caseInfo{m, c, hidden}
